@@ -15,7 +15,7 @@ REQUIRED = ["CifModel.C02_text_protocol", "CifModel.C02_fold_line_progress", "Ci
             "CifModel.C02_last_column_exact", "CifModel.C02_last_column_exact_doc", "CifModel.C02_lastLineLength_spec",
             "CifModel.C02_clean_of_line_hypotheses", "CifModel.C02_cex_column_cr"]
 GEN = ["WriterConsts", "ErrCodes"]
-FAMILIES = ["decode", "writeval", "write"]
+FAMILIES = ["decode", "writeval", "write", "wstatic"]
 TRUSTED_BASE = [
     "Lean 4.33.0 kernel; axioms propext, Classical.choice, Quot.sound only",
     "tools/translate_writer.py: extraction of CIF_LINE_LENGTH, PREFIX, PREFIX_LENGTH, FOLDING_WINDOW, the literal 8 of target_length, "
